@@ -82,18 +82,32 @@ def G.incident (g : G) (v : Nat) : Dir → List Edge
   | .inn => g.edges.filter (fun e => e.stop = v)
   | .both => g.edges.filter (fun e => e.start = v || e.stop = v)
 
+/-- leaves of the tree `x ↦ children x` that are past the root, each as often as it occurs, left to right
+(`fuel` bounds the height explored; a tree of height < fuel is explored completely). -/
+def treeLeaves {α : Type} (children : α → List α) (isPath : α → Bool) : Nat → α → List α
+  | 0, _ => []
+  | fuel + 1, x =>
+    if (children x).isEmpty then (if isPath x then [x] else [])
+    else (children x).flatMap (treeLeaves children isPath fuel)
+
 /-- all maximal walks (as segments, terminal → root) from the walk `w`: a walk is reported when it has
 ≥ 1 edge and no admitted continuation, or when it reached the depth bound. `pick` is the far end of an
 edge seen from a node (`Edge.other`; the monitor also instantiates the defect shape to classify). -/
 def maxWalks (g : G) (d : Dir) (filt : Edge → Bool) (maxDepth : Int) (pick : Edge → Nat → Nat := Edge.other) :
-    Nat → List Seg → List (List Seg)
-  | 0, _ => []
-  | fuel + 1, w =>
-    let node := (w.headD ⟨0, 0⟩).node
-    let depth : Int := w.length
-    let exceeded := decide (maxDepth > 0) && decide (maxDepth < depth)
-    let exts := if exceeded then [] else ((g.incident node d).filter filt).map (fun e => ⟨pick e node, e.id⟩ :: w)
-    if exts.isEmpty then (if depth > 1 then [w] else [])
-    else exts.flatMap (fun w' => maxWalks g d filt maxDepth pick fuel w')
+    Nat → List Seg → List (List Seg) :=
+  treeLeaves (segChildren (fun n => g.incident n d) filt maxDepth pick) segIsPath
+
+/-- end point, length (in edges) and weight product of every maximal weighted walk from the terminal `t` —
+what TSStatelessBFS must hand to its handler. -/
+def maxTerms (g : G) (d : Dir) (wfilt : Edge → Option Nat) (maxDepth : Int) : Nat → PTerm → List PTerm :=
+  treeLeaves (ptChildren (fun n => g.incident n d) wfilt maxDepth Edge.other) ptIsPath
+
+/-- keep the last occurrence of every pair -/
+def dedupP : List (Nat × Nat) → List (Nat × Nat)
+  | [] => []
+  | p :: ps => if p ∈ dedupP ps then dedupP ps else p :: dedupP ps
+
+/-- the distinct (start, end) pairs — what a simple-digraph container (adjacency map, CSR) can count. -/
+def G.pairs (g : G) : List (Nat × Nat) := dedupP (g.edges.map (fun e => (e.start, e.stop)))
 
 end Dawgs.C14
